@@ -230,6 +230,8 @@ def run(ctx, ck):
                 elif fname == 'Excitation':
                     for kw in call.keywords:
                         if kw.arg == 'geo_idx':
+                            if isinstance(kw.value, ast.Constant) and kw.value.value is None:
+                                continue        # no per-object number on this path (the default written out)
                             note('main|Excitation.geo_idx', once_decremented(kw.value), st_, 'geo_idx = %s' % norm(kw.value)[:80])
                 elif fname == 'register_load':
                     a_ = arg_at(call, 1)
